@@ -16,6 +16,8 @@ COMMON_ASSUMPTIONS = [
     "solver: z3 4.8.12 over a pipe (QF_BV terms, no set-logic), per-query timeout, z3 5.1.0 one-shot fallback on unknown; any (error answer is treated as inconclusive",
 ]
 
+FILEPKG = {"pkgs": "./persist/file", "overlays": ["harness/persist_file=persist/file"], "pkgdir": "persist/file", "harness_dirs": ["harness/persist_file"], "sample_every": 1, "validate": 300}
+S3PKG = {"pkgs": "./persist/s3", "overlays": ["harness/persist_s3=persist/s3"], "pkgdir": "persist/s3", "harness_dirs": ["harness/persist_s3"], "sample_every": 3}
 B2 = {"BF": 2, "Lmax": 2, "KW": 8}
 
 def b(**kw):
@@ -161,6 +163,50 @@ PROPERTIES = {
         "must_reach": ["C19.rejected.unknown-format", "C19.rejected.layer-below-height", "C19.rejected.top-missing", "C19.rejected.count-mismatch", "C19.rejected.not-ascending", "C19.rejected.not-ascending-under-configured-order", "C19.rejected.undecodable"],
         "bounds_statement": "correctly persisted tree of N ascending symbolic entries, then one perturbation: unknown NodeFormat; symbolic Height (<=4); missing top node; well-formed top node with one value too many / one link too many / two adjacent keys swapped; loader KeyCompare reversed; top node replaced by an arbitrary undecodable buffer of <= L symbolic bytes each < 10 (single-byte varints)",
         "outside": ["BranchFactor perturbation (the symbolic key type's layer does not depend on the branch factor; integer layers are covered in C14)", "buffers longer than L or with multi-byte varints"],
+        "assumptions": COMMON_ASSUMPTIONS,
+    },
+    "C14": {
+        "runs": {
+            "quick": [H("HarnessC14a", {"NK": n, "Lmax": 2}) for n in (0, 1, 2, 3)] + [H("HarnessC14b", b(N=3))] +
+                     [H("HarnessC14c", {"BF": 2, "VMAX": 0, "SIGNED": 0}), H("HarnessC14c", {"BF": 4, "VMAX": 0, "SIGNED": 0}), H("HarnessC14c", {"BF": 16, "VMAX": 0, "SIGNED": 0}),
+                      H("HarnessC14c", {"BF": 16, "VMAX": 0, "SIGNED": 1}),
+                      H("HarnessC14c", {"BF": 3, "VMAX": 2187, "SIGNED": 0}), H("HarnessC14c", {"BF": 10, "VMAX": 100000, "SIGNED": 0}), H("HarnessC14c", {"BF": 3, "VMAX": 729, "SIGNED": 1}),
+                      H("HarnessC14d", {"X": 0}, conc_bound=256), H("HarnessC14d2", {"BF": 16}, conc_bound=256), H("HarnessC14d2", {"BF": 2}, conc_bound=256),
+                      H("HarnessC14e", {"X": 0}), H("HarnessC14f", {"X": 0}), H("HarnessC14g", {"X": 0})],
+            "thorough": [H("HarnessC14a", {"NK": n, "Lmax": 2}) for n in (0, 1, 2, 3, 4)] + [H("HarnessC14b", b(N=4))] +
+                     [H("HarnessC14c", {"BF": f, "VMAX": 0, "SIGNED": 0}) for f in (2, 4, 8, 16)] + [H("HarnessC14c", {"BF": f, "VMAX": 0, "SIGNED": 1}, timeout_ms=30000) for f in (4, 8, 16)] +
+                     [H("HarnessC14c", {"BF": 3, "VMAX": 3 ** 9, "SIGNED": 0}), H("HarnessC14c", {"BF": 5, "VMAX": 5 ** 7, "SIGNED": 0}), H("HarnessC14c", {"BF": 6, "VMAX": 6 ** 6, "SIGNED": 0}),
+                      H("HarnessC14c", {"BF": 7, "VMAX": 7 ** 6, "SIGNED": 0}), H("HarnessC14c", {"BF": 10, "VMAX": 10 ** 6, "SIGNED": 0}), H("HarnessC14c", {"BF": 3, "VMAX": 3 ** 7, "SIGNED": 1}),
+                      H("HarnessC14d", {"X": 0}, conc_bound=256)] + [H("HarnessC14d2", {"BF": f}, conc_bound=256) for f in (2, 3, 4, 16)] +
+                     [H("HarnessC14e", {"X": 0}), H("HarnessC14f", {"X": 0}), H("HarnessC14g", {"X": 0})],
+        },
+        "must_reach": ["C14.binary-layout", "C14.decode-is-inverse", "C14.v1marshaler-passes-bare-Node", "C14.uintLayer", "C14.intLayer", "C14.crc-table-is-ECMA", "C14.crc-step", "C14.blobLayer", "C14.stringLayer",
+                       "C14.compare-sign", "C14.compare-mismatch-errors", "C14.default-bf-16", "C14.default-format-binary", "C14.golden-node-bytes", "C14.golden-node-name", "C14.golden-uintLayer", "C14.golden-loads"],
+        "bounds_statement": "leaf differential harnesses: marshalMastNode vs an independent encoder and unmarshalMastNode as its inverse for nodes of NK entries and every nil/non-nil link pattern; uintLayer/intLayer vs 'largest e with bf^e | v' over all 64-bit v for bf in {2,4,8,16} (full unrolling, every exit path) and over v < VMAX for bf in {3,5,6,7,10}; CRC table vs the bitwise ECMA polynomial (256 concrete entries), the table-driven update step vs the bitwise LFSR for any 64-bit state and byte, blob/string layers for every 1-byte key; DefaultKeyCompare for int/int64/uint/uint64 (all 64-bit values), string/[]byte of length 0..2, mismatched types; NewRoot/NewInMemory defaults for a symbolic BranchFactor; frozen reference vectors",
+        "outside": ["v1marshaler bytes under the default JSON marshaler (encoding/json is not encodable): only the value handed to the marshaler is checked", "non-power-of-two branch factors beyond v < VMAX (64-bit division chains are out of the solvers' reach; see DESIGN 5)", "CRC inputs longer than one byte other than through the one-step lemma; inputs >= 64 bytes (slicing-by-8 path)", "the BLAKE2b bits (one published test vector only)"],
+        "assumptions": COMMON_ASSUMPTIONS,
+    },
+    "C17": {
+        "runs": {
+            "quick": [H("HarnessC17a", {"LMAX": 3}, **FILEPKG)],
+            "thorough": [H("HarnessC17a", {"LMAX": 6}, **FILEPKG)],
+        },
+        "must_reach": ["C17.load-after-cut-is-notfound-or-complete", "C17.success-is-complete", "C17.restore-repairs"],
+        "bounds_statement": "real persist/file Store and Load over a symbolic file-system model: node of 0..LMAX symbolic bytes; the store is cut by a crash at every step (before create, after create, after each byte, before/after rename) or by a write error after every byte count; then restart, Load, Store again, Load",
+        "outside": ["power-loss semantics (unsynced data lost after rename): the model's crash is a process crash", "payloads longer than LMAX (the store's own I/O does not depend on content)"],
+        "assumptions": COMMON_ASSUMPTIONS + ["file-system model: os.Stat/ReadFile/WriteFile/CreateTemp/Rename/Remove and (*os.File).Write/Close/Sync/Name; WriteFile is create+write+close and not atomic, Rename is atomic, CreateTemp yields a fresh name in the given directory; filepath.Join of symbolic components is plain concatenation (the node-name alphabet has no separators)",
+                                                "native replay: crashes and short writes are produced by the real kernel (RLIMIT_FSIZE; crash = child process killed at the limit); fault points the kernel cannot be asked for are skipped in translator validation"],
+    },
+    "C18": {
+        "runs": {
+            "quick": [H("HarnessC18m", {"LMAX": 2}, sched=True, preempt=3, race=True, sample_every=5), H("HarnessC18f", {"LMAX": 2}, **FILEPKG), H("HarnessC18s", {"LMAX": 2}, **S3PKG)],
+            "thorough": [H("HarnessC18m", {"LMAX": 3}, sched=True, preempt=6, race=True, sample_every=20), H("HarnessC18f", {"LMAX": 3}, **FILEPKG), H("HarnessC18s", {"LMAX": 3}, **S3PKG)],
+        },
+        "must_reach": ["C18.mem.roundtrip", "C18.mem.missing-name-errors", "C18.mem.roundtrip-after-concurrent-stores", "C18.mem.roundtrip-two-names",
+                       "C18.file.roundtrip", "C18.file.missing-name-errors", "C18.file.read-error-returned",
+                       "C18.s3.roundtrip", "C18.s3.put-addresses-prefix+name-in-bucket", "C18.s3.get-addresses-prefix+name-in-bucket", "C18.s3.put-error-returned", "C18.s3.get-error-returned", "C18.s3.body-read-error-returned"],
+        "bounds_statement": "for each backend: symbolic name of 1..2 characters from the node-name alphabet, symbolic payload of 0..LMAX bytes; load before any write, store, load, store again, load; second (possibly equal) name; in-memory: two goroutines storing the same node under every schedule within the preemption bound, with happens-before race detection; file: Stat/ReadFile/CreateTemp/Rename/Close failing; S3: fake client recording Bucket/Key/Body, symbolic bucket and prefix, client and body-read errors",
+        "outside": ["the real AWS client and network", "the real kernel file system (model; kernel used in native replay)", "payloads beyond LMAX bytes"],
         "assumptions": COMMON_ASSUMPTIONS,
     },
 }
